@@ -36,6 +36,7 @@ const MSTOREW: u8 = Operation::MStoreW.op_code();
 const MLOAD: u8 = Operation::MLoad.op_code();
 const MSTORE: u8 = Operation::MStore.op_code();
 const MSTREAM: u8 = Operation::MStream.op_code();
+const PIPE: u8 = Operation::Pipe.op_code();
 const RCOMBBASE: u8 = Operation::RCombBase.op_code();
 const HPERM: u8 = Operation::HPerm.op_code();
 const MPVERIFY: u8 = Operation::MpVerify.op_code();
@@ -100,6 +101,7 @@ impl<E: FieldElement<BaseField = Felt>> AuxColumnBuilder<E> for BusColumnBuilder
             MLOAD => build_mem_request_element(main_trace, MEMORY_READ_LABEL, alphas, row),
             MSTORE => build_mem_request_element(main_trace, MEMORY_WRITE_LABEL, alphas, row),
             MSTREAM => build_mstream_request(main_trace, alphas, row),
+            PIPE => build_pipe_request(main_trace, alphas, row),
             RCOMBBASE => build_rcomb_base_request(main_trace, alphas, row),
             HPERM => build_hperm_request(main_trace, alphas, row),
             MPVERIFY => build_mpverify_request(main_trace, alphas, row),
@@ -445,6 +447,35 @@ fn build_mstream_request<E: FieldElement<BaseField = Felt>>(
     ];
     let addr = main_trace.stack_element(12, row);
     let op_label = MEMORY_READ_LABEL;
+
+    let factor1 = compute_memory_request(main_trace, op_label, alphas, row, addr, word1);
+    let factor2 = compute_memory_request(main_trace, op_label, alphas, row, addr + ONE, word2);
+
+    factor1 * factor2
+}
+
+/// Builds `PIPE` requests made to the memory chiplet: the two words popped from the advice stack
+/// are written to memory at the address in the 13th stack element and at the following address;
+/// after the operation they are the top 8 elements of the stack, in stack order.
+fn build_pipe_request<E: FieldElement<BaseField = Felt>>(
+    main_trace: &MainTrace,
+    alphas: &[E],
+    row: usize,
+) -> E {
+    let word1 = [
+        main_trace.stack_element(7, row + 1),
+        main_trace.stack_element(6, row + 1),
+        main_trace.stack_element(5, row + 1),
+        main_trace.stack_element(4, row + 1),
+    ];
+    let word2 = [
+        main_trace.stack_element(3, row + 1),
+        main_trace.stack_element(2, row + 1),
+        main_trace.stack_element(1, row + 1),
+        main_trace.stack_element(0, row + 1),
+    ];
+    let addr = main_trace.stack_element(12, row);
+    let op_label = MEMORY_WRITE_LABEL;
 
     let factor1 = compute_memory_request(main_trace, op_label, alphas, row, addr, word1);
     let factor2 = compute_memory_request(main_trace, op_label, alphas, row, addr + ONE, word2);
